@@ -713,16 +713,85 @@ def check_format_signature(fx, rep, rule):
     except S.Undecidable as e:
         rep.undecidable(rule, "%s/format_signature/shape" % rule, loc=F.short_file(b["sp"]), construct=e.msg)
         return
-    if sy.loop_order:
-        rep.undecidable(rule, "%s/format_signature/shape" % rule, loc=F.short_file(b["sp"]), construct="loop in format_signature")
-        return
     slf = ("in", "self")
     ret = mk_field(slf, "return_type")
+    if len(sy.loop_order) > 1:
+        rep.undecidable(rule, "%s/format_signature/shape" % rule, loc=F.short_file(b["sp"]), construct="%d loops in format_signature" % len(sy.loop_order))
+        return
     def is_join(t):
         return t[0] == "call" and t[1].endswith("::join") and len(t[2]) == 2 and t[2][0] == mk_field(slf, "parameters")
 
+    def join_loop_sep(L):
+        """the loop appends the elements of self.parameters to the string, separated by a literal: `for (i, p) in
+        self.parameters.iter().enumerate() { if i > 0 { s.push_str(SEP) } s.push_str(p) }` -> SEP term, else None"""
+        import readers as RD_
+        drv = RD_.driver_of_loop(L)
+        if drv != call("std::iter::Iterator::enumerate", call("core::slice::iter", mk_field(slf, "parameters"))):
+            return None
+        base = len(L["entry"].conds)
+        idx, el = mk_field(R.ELEM, "0"), mk_field(R.ELEM, "1")
+        sep, seen = None, set()
+        for st_, (k_, v_) in L["paths"]:
+            a_ = fc.assignment(st_.conds[base:], R.rw_iter)
+            effs = [fc.rewrite(e_, R.rw_iter) for e_ in st_.effects if e_[0] == "call" and not R.is_next(e_[1])]
+            if a_.get(("is", R.NEXT, "Some")) is False:
+                if effs or k_ != S.BRK:
+                    return None
+                continue
+            first = a_.get(("eq", idx, lit_int(0)))
+            if first is None:
+                first = None if a_.get(("lt", lit_int(0), idx)) is None else (not a_.get(("lt", lit_int(0), idx)))
+            if first is None or k_ != S.CONT:
+                return None
+            args = [e_[2][1] for e_ in effs if e_[1].endswith(("String::push_str", "String::push"))]
+            if len(args) != len(effs):
+                return None
+            if first:
+                if args != [el]:
+                    return None
+            else:
+                if len(args) != 2 or args[1] != el or args[0][0] != "lit":
+                    return None
+                if sep not in (None, args[0]):
+                    return None
+                sep = args[0]
+            seen.add(first)
+        return sep if seen == {True, False} else None
+
+    def pieces_from_effects(st):
+        """the string assembled by push / push_str / a join loop on one local String that starts empty"""
+        names = {e[2][0][1] for e in st.effects if e[0] == "call" and e[1].endswith(("String::push_str", "String::push")) and e[2][0][0] == "place"}
+        if len(names) != 1:
+            return None
+        nm = list(names)[0]
+        init = None
+        for q_ in [b] + [fx.bodies[x] for x in fx.bodies if x.startswith(b["path"].rsplit("::", 1)[0]) and fx.bodies[x]["krate"] == "proguard"]:
+            for nn in F.walk(q_["body"]):
+                if nn.get("k") == "Block":
+                    for s_ in nn["stmts"]:
+                        if s_["k"] == "Let" and s_["pat"].get("k") == "Bind" and s_["pat"].get("name") == nm and s_.get("init") is not None and q_ is b:
+                            init = F.strip(s_["init"])
+        if init is None or not (init.get("k") == "Call" and "fn" in init and init["fn"]["path"].endswith(("String::new", "String::with_capacity"))):
+            return None
+        t = ("lit", "str", "")
+        for e in st.effects:
+            if e[0] == "call" and e[1].endswith(("String::push_str", "String::push")) and e[2][0] == ("place", nm, ()):
+                t = ("strcat", t, e[2][1])
+            elif e[0] == "loopsum":
+                L = next((sy.loops[k_] for k_ in sy.loop_order if sy.loops[k_]["index"] == e[1]), None)
+                sep = join_loop_sep(L) if L else None
+                if sep is None:
+                    return None
+                t = ("strcat", t, call("alloc::slice::join", mk_field(slf, "parameters"), sep if sep[1] != "char" else ("lit", "str", sep[2])))
+            elif e[0] in ("call", "assign", "opassign"):
+                return None
+        return t
+
     def outcome(st, out):
-        pcs = str_pieces(out[1])
+        v_ = out[1]
+        if sy.loop_order:
+            v_ = pieces_from_effects(st) or v_
+        pcs = str_pieces(v_)
         # the parameter list: join(self.parameters, <sep>) with the separator made visible
         norm = []
         for pc in pcs:
